@@ -112,7 +112,7 @@ theorem C09_sign_never_panics (fmt : Sign.Fmt) (r : Sign.Req) : isPanic (Sign.si
 
 /-- **C09 (revocation fork/join)**: under every schedule the call ends (returned or re-panicked on
     the caller) within `4m + 4` actions and the process is never aborted — C17, restated -/
-theorem C09_revocation_join (e : Conc.Env) (n : Nat) (s : Conc.State) (h : ReachableIn e n s) :
+theorem C09_revocation_join (e : Conc.Env α) (n : Nat) (s : Conc.State α) (h : ReachableIn e n s) :
     n ≤ 4 * e.m + 4 ∧ s.crashed = false :=
   ⟨by have := C17_bounded e n s h; omega, C17_no_crash e s h.reachable⟩
 
